@@ -287,3 +287,22 @@ def extraction_crosscheck(cases, workdir, limit=120):
         if a != b:
             raise Broken('extraction cross-check: Coq vm_compute and the extracted OCaml disagree on %s: %s vs %s' % (hx, a, b))
     return len(sample)
+
+
+def budget(cases, limit_bytes, rng):
+    """keep the total size of the case file under limit_bytes: all cases of up to 4000 characters stay, the longer ones are
+    thinned out at random (a dropped case is simply not run; judges look their cases up by text). Returns (cases, dropped)."""
+    total = sum(len(c) for c in cases)
+    if total <= limit_bytes:
+        return cases, 0
+    small = sum(len(c) for c in cases if len(c) <= 4000)
+    room = max(0, limit_bytes - small)
+    big_total = total - small
+    keep_p = room / big_total if big_total else 1.0
+    out, dropped = [], 0
+    for c in cases:
+        if len(c) <= 4000 or rng.random() < keep_p:
+            out.append(c)
+        else:
+            dropped += 1
+    return out, dropped
